@@ -113,36 +113,52 @@ def deliverResp (b : Building) : Resp :=
   { proto := b.proto, code := b.code, status := b.status, header := b.header,
     contentLength := b.contentLength, body := b.body, trailer := b.trailer }
 
-/-- one processor callback. `none` = the Go code would dereference a nil request/response (never happens on
-    event lists the parser produces: the first event of a message creates the object). -/
+/-- `ServerProcessor`: one callback. `none` = the Go code would dereference a nil request (never happens on event
+    lists the parser produces: the first event of a message, `method`, creates the request). -/
+def serverStep (cur : Option Building) (e : Ev) : Option (Option Building × List Delivered) :=
+  match cur with
+  | none =>
+    match e with
+    | .method m => some (some { method := m }, [])
+    | .status _ _ => some (none, [])
+    | .complete => some (none, [])
+    | _ => none
+  | some b =>
+    match e with
+    | .method m => some (some { b with method := m }, [])
+    | .url u => some (some { b with target := u }, [])
+    | .proto p => some (some { b with proto := p }, [])
+    | .status _ _ => some (some b, [])
+    | .header k v => some (some { b with header := b.header.add k v }, [])
+    | .contentLength n => some (some { b with contentLength := n }, [])
+    | .body d => some (some { b with body := b.body ++ d }, [])
+    | .trailer k v => some (some { b with trailer := b.trailer.add (canonicalKey k) v }, [])
+    | .complete => some (none, [.req (deliverReq b)])
+
+/-- `ClientProcessor`: one callback (`proto` creates the response; `Header.Add`/`Trailer.Add` canonicalise the name) -/
+def clientStep (cur : Option Building) (e : Ev) : Option (Option Building × List Delivered) :=
+  match cur with
+  | none =>
+    match e with
+    | .method _ => some (none, [])
+    | .url _ => some (none, [])
+    | .proto p => some (some { proto := p }, [])
+    | _ => none
+  | some b =>
+    match e with
+    | .method _ => some (some b, [])
+    | .url _ => some (some b, [])
+    | .proto p => some (some { b with proto := p }, [])
+    | .status c s => some (some { b with code := c, status := s }, [])
+    | .header k v => some (some { b with header := b.header.add (canonicalKey k) v }, [])
+    | .contentLength n => some (some { b with contentLength := n }, [])
+    | .body d => some (some { b with body := b.body ++ d }, [])
+    | .trailer k v => some (some { b with trailer := b.trailer.add (canonicalKey k) v }, [])
+    | .complete => some (none, [.resp (deliverResp b)])
+
+/-- one processor callback -/
 def procStep (isClient : Bool) (cur : Option Building) (e : Ev) : Option (Option Building × List Delivered) :=
-  if isClient then
-    match e, cur with
-    | .method _, c => some (c, [])
-    | .url _, c => some (c, [])
-    | .proto p, none => some (some { proto := p }, [])
-    | .proto p, some b => some (some { b with proto := p }, [])
-    | .complete, some b => some (none, [.resp (deliverResp b)])
-    | _, none => none
-    | .status c s, some b => some (some { b with code := c, status := s }, [])
-    | .header k v, some b => some (some { b with header := b.header.add (canonicalKey k) v }, [])
-    | .contentLength n, some b => some (some { b with contentLength := n }, [])
-    | .body d, some b => some (some { b with body := b.body ++ d }, [])
-    | .trailer k v, some b => some (some { b with trailer := b.trailer.add (canonicalKey k) v }, [])
-  else
-    match e, cur with
-    | .method m, none => some (some { method := m }, [])
-    | .method m, some b => some (some { b with method := m }, [])
-    | .status _ _, c => some (c, [])
-    | .complete, none => some (none, [])
-    | .complete, some b => some (none, [.req (deliverReq b)])
-    | _, none => none
-    | .url u, some b => some (some { b with target := u }, [])
-    | .proto p, some b => some (some { b with proto := p }, [])
-    | .header k v, some b => some (some { b with header := b.header.add k v }, [])
-    | .contentLength n, some b => some (some { b with contentLength := n }, [])
-    | .body d, some b => some (some { b with body := b.body ++ d }, [])
-    | .trailer k v, some b => some (some { b with trailer := b.trailer.add (canonicalKey k) v }, [])
+  if isClient then clientStep cur e else serverStep cur e
 
 /-- run the processor over an event list -/
 def procRun (isClient : Bool) : Option Building → List Ev → List Delivered → Option (Option Building × List Delivered)
